@@ -80,23 +80,29 @@ class MafWriter(object):
     def __iadd__(self, record: MafRecord) -> 'MafWriter':
         """Write a MafRecord."""
 
-        # set the scheme and write the column names if not already written
-        if not self._scheme:
+        # the first record of a writer without a scheme gives the column names
+        scheme = self._scheme
+        if not scheme:
             column_names = [str(key) for key in record.keys()]
             self.__check_column_names(column_names)
-            self._scheme = NoRestrictionsScheme(column_names=column_names)
-            self._handle.write(
-                MafRecord.ColumnSeparator.join(self._scheme.column_names()) + "\n"
-            )
-            self._set_checker_and_sorter()
+            scheme = NoRestrictionsScheme(column_names=column_names)
 
         # validate the record
         record.validate(
             validation_stringency=self.validation_stringency,
             logger=self._logger,
             reset_errors=True,
-            scheme=self._scheme,
+            scheme=scheme,
         )
+
+        # set the scheme and write the column names if not already written: a
+        # record that was refused leaves nothing behind
+        if not self._scheme:
+            self._scheme = scheme
+            self._handle.write(
+                MafRecord.ColumnSeparator.join(self._scheme.column_names()) + "\n"
+            )
+            self._set_checker_and_sorter()
 
         # either write it directly, or add it to the sorter
         if self._sorter:
